@@ -294,6 +294,9 @@ def _r1_run(chk, m, mname, run):
             continue
         cell = e.cell
         if cell is None and e.obj in aobjs:
+            # an array allocated in this very call (and only later bound to self.<attr>) is fresh
+            if isinstance(e.obj, tuple) and e.obj and e.obj[0] == "site" and len(e.obj) > 1 and e.obj[1] == "%s.%s" % (c.name, mname):
+                continue
             cell = ("self", aobjs[e.obj])
         if cell is None:
             continue
